@@ -429,7 +429,7 @@ func runCodecChannels(o vh.Opts, rng *vh.RNG, rep *vh.Report) {
 			xs = append(xs, v, -v)
 		}
 	}
-	xs = append(xs, 0, -1 << 63, 1<<63 - 1)
+	xs = append(xs, 0, -1<<63, 1<<63-1)
 	for i := 0; i < o.Pick(300, 5000); i++ {
 		xs = append(xs, int64(rng.U64())>>uint(rng.Intn(64)))
 	}
